@@ -473,13 +473,13 @@ Definition cls_structure (c : centry) : pattern := cpat (ccls c).
 
 (* a character of such a text: an IUPAC letter (upper case, as Bio.Restriction writes sites), the
    two cut markers of elucidate(), the three regex characters structure() inserts *)
-Inductive sch := SL (c : code) | SCaret | SUnder | SOpen | SClose | SStar | SOther (a : ascii).
+Inductive sch := SL (c : code) | SCaret | SUnder | SOpen | SClose | SStar | SQuest | SOther (a : ascii).
 Definition pystr := list sch.
 
 Definition sch_eqb (a b : sch) : bool :=
   match a, b with
   | SL x, SL y => code_eqb x y
-  | SCaret, SCaret | SUnder, SUnder | SOpen, SOpen | SClose, SClose | SStar, SStar => true
+  | SCaret, SCaret | SUnder, SUnder | SOpen, SOpen | SClose, SClose | SStar, SStar | SQuest, SQuest => true
   | SOther x, SOther y => Ascii.eqb x y
   | _, _ => false
   end.
@@ -491,6 +491,7 @@ Definition sch_of_ascii (a : ascii) : sch :=
   | "K"%char => SL cK | "M"%char => SL cM | "B"%char => SL cB | "D"%char => SL cD
   | "H"%char => SL cH | "V"%char => SL cV | "N"%char => SL cN
   | "^"%char => SCaret | "_"%char => SUnder | "("%char => SOpen | ")"%char => SClose | "*"%char => SStar
+  | "?"%char => SQuest
   | _ => SOther a
   end.
 (* a string constant of the source *)
